@@ -140,35 +140,61 @@ func derivesFromRecv(v ssa.Value, recv ssa.Value) bool {
 }
 
 func orderStamp(r *engine.Run, rule string) {
-	f := r.Fn(rule, pkgUtil, "MerklePatriciaTrie", "insertNode")
+	f, store := mptStoreFn(r, rule)
 	if f == nil {
 		return
 	}
+	if store == nil {
+		r.Fail(rule, fn(f), r.P.Pos(f.Pos()), "insertNode lacks the stamp/hash/put sequence (no store write in insertNode or in the method it hands over to): a node is stored under a hash computed before its origin was set")
+		return
+	}
 	newP := f.Params[2]
-	var stamp, hash, put *ssa.Call
+	var stamp, hash, put, hand *ssa.Call
 	var muts []*ssa.Call
-	engine.Instrs(f, func(in ssa.Instruction) {
-		c, ok := in.(*ssa.Call)
-		if !ok {
-			return
-		}
-		if invokeOnField(c, "db", "PutNode") {
-			put = c
-			return
-		}
-		for m := range nodeMutators {
-			if recv, ok := engine.IsMethodCall(c, m); ok && recv == ssa.Value(newP) {
-				if m == "SetOrigin" && stamp == nil {
-					stamp = c
-				} else {
-					muts = append(muts, c)
+	collect := func(g *ssa.Function, np ssa.Value, wantStamp bool) {
+		engine.Instrs(g, func(in ssa.Instruction) {
+			c, ok := in.(*ssa.Call)
+			if !ok {
+				return
+			}
+			if invokeOnField(c, "db", "PutNode") {
+				put = c
+				return
+			}
+			for m := range nodeMutators {
+				if recv, ok := engine.IsMethodCall(c, m); ok && recv == np {
+					if m == "SetOrigin" && stamp == nil && wantStamp {
+						stamp = c
+					} else {
+						muts = append(muts, c)
+					}
 				}
 			}
+		})
+	}
+	collect(f, newP, true)
+	storeNew := ssa.Value(newP)
+	if store != f {
+		// the hand-over: the stamped node goes to the store function as its new node
+		engine.Instrs(f, func(in ssa.Instruction) {
+			if c, ok := in.(*ssa.Call); ok && c.Call.StaticCallee() == store {
+				for i, a := range c.Call.Args {
+					if a == ssa.Value(newP) && i < len(store.Params) {
+						hand = c
+						storeNew = store.Params[i]
+					}
+				}
+			}
+		})
+		if hand == nil {
+			r.Fail(rule, fn(f), r.P.Pos(f.Pos()), "insertNode does not hand the node it stamped to the method that stores it")
+			return
 		}
-	})
+		collect(store, storeNew, false)
+	}
 	if put != nil {
 		if h, ok := stripCT(put.Call.Args[0]).(*ssa.Call); ok {
-			if recv, ok := engine.IsMethodCall(h, "GetHashBytes"); ok && recv == ssa.Value(newP) {
+			if recv, ok := engine.IsMethodCall(h, "GetHashBytes"); ok && recv == storeNew {
 				hash = h
 			}
 		}
@@ -181,13 +207,30 @@ func orderStamp(r *engine.Run, rule string) {
 	if fld := fieldLoadOf(stamp.Call.Args[0]); fld != nil && fld.Name() == "Version" {
 		okVer = true
 	}
-	good := okVer && engine.InstrDominates(stamp, hash) && engine.InstrDominates(hash, put)
+	good := okVer && engine.InstrDominates(hash, put)
+	if store == f {
+		good = good && engine.InstrDominates(stamp, hash)
+	} else {
+		good = good && engine.InstrDominates(stamp, hand) && put.Call.Args[1] == storeNew
+	}
 	for _, m := range muts {
-		if engine.ReachableAfter(stamp, m) && !engine.ReachableAfter(put, m) || engine.ReachableAfter(hash, m) {
-			good = false
+		switch {
+		case m.Parent() == f && store != f:
+			// in insertNode: nothing may touch the node between the stamp and the hand-over
+			if engine.ReachableAfter(stamp, m) {
+				good = false
+			}
+		case m.Parent() == store:
+			if !engine.ReachableAfter(put, m) || engine.ReachableAfter(hash, m) {
+				good = false
+			}
+		default:
+			if engine.ReachableAfter(stamp, m) && !engine.ReachableAfter(put, m) || engine.ReachableAfter(hash, m) {
+				good = false
+			}
 		}
 	}
-	r.Check(good, rule, fn(f), r.P.Pos(stamp.Pos()), "SetOrigin(trie version) -> GetHashBytes -> PutNode(hash, node), no mutation in between", "the key under which the node is stored is not the hash of the node as stamped with the trie version")
+	r.Check(good, rule, fn(f), r.P.Pos(stamp.Pos()), "SetOrigin(trie version) -> GetHashBytes -> PutNode(hash, node), no mutation in between (the hash/put part may live in the method insertNode hands the stamped node to)", "the key under which the node is stored is not the hash of the node as stamped with the trie version")
 }
 
 // branchArmCalls: for function f, the blocks of the type-switch arm for *T and
